@@ -539,6 +539,11 @@ def parse_equation_terms(equation: str) -> List[Term]:
             f'names - these keywords are invalid for this purpose: `{equation}`'
         )
 
+    if not any(filter(lambda x: x.type == Type.ENDOGENOUS, lhs_terms)):
+        raise ParserError(
+            f"Found no variable to assign on the left-hand side of: '{equation}'"
+        )
+
     return lhs_terms + rhs_terms
 
 
